@@ -319,6 +319,12 @@ func (u *Unit) appendBuiltin(st *State, fr *Frame, in *ssa.Call, args []Val) Val
 			nr.C = u.mkArr(func(j *Term) *Term {
 				return Ite(Lt(j, sLen), Select(sC0, Add(sOff0, j)), Select(xArr, Add(xo, Sub(j, sLen))))
 			})
+			// piece boundaries (relative to the new buffer, which starts at 0)
+			if sOff0.IsInt && sOff0.I.Sign() == 0 && len(sC0.Segs) > 0 {
+				nr.C.Segs = append(append([]*Term(nil), sC0.Segs...), sLen)
+			} else {
+				nr.C.Segs = []*Term{sLen}
+			}
 			u.addRegion(st, nr)
 			cp := u.newInt("cap")
 			u.assume(And(Le(newLen, cp), Le(cp, BigLit(MaxLen))))
@@ -482,7 +488,9 @@ func (u *Unit) useContract(st *State, fr *Frame, in *ssa.Call, fn *ssa.Function,
 	u.UsedContracts[FuncName(fn)]++
 	for _, cl := range ct.Requires {
 		cf := u.clauseFunc(fn, cl.Func)
+		u.goalMode++
 		t := u.evalPure(st, cf, args, nil).(*Term)
+		u.goalMode--
 		u.check(st, fmt.Sprintf("%s#pre:%s:%s", FuncName(fr.fn), FuncName(fn), cl.Text), "pre", t, "precondition of "+FuncName(fn)+": "+cl.Text)
 	}
 	before := u.S.CheckSatT(u.Cfg.FeasMs)
